@@ -495,7 +495,7 @@ static void do_access(int lineno, const char *op, toks_t *t)
     int haspat = 0, cbad = 0, overs = 0, have_type = 0;
     char lay;
     long long seed = 0, bufcount = 0, vcnt = 0, vblk = 0, vstr = 0;
-    long long nelems, libne, imapext, npat, lim, es, need;
+    long long nelems, libne, libraw, imapext, npat, lim, es, need;
     long long ext_bytes, lb_bytes = 0;
     const char *s;
     MPI_Datatype bt = MPI_DATATYPE_NULL;
@@ -633,8 +633,10 @@ static void do_access(int lineno, const char *op, toks_t *t)
             for (i = 0; i < a.nreq; i++) libne = sat_add(libne, prod_counts(a.counts[i], vi.ndims, &cbad));
         } else if (a.count != NULL)
             libne = prod_counts(a.count, vi.ndims, &cbad);
-        if (cbad || libne < nelems) libne = nelems;
+        if (cbad) libne = nelems;
     }
+    libraw = libne;
+    if (libne < nelems) libne = nelems;
 
     /* memory element type */
     if (lay == 'n') { mk = (vi.xtype_ok && vi.xtype >= 1 && vi.xtype <= 11) ? (int)vi.xtype : 1; }
@@ -673,7 +675,11 @@ static void do_access(int lineno, const char *op, toks_t *t)
     }
     if (ext_bytes > CAP_BYTES) { ext_bytes = es; npat = 1; overs = 1; }
     if (need > CAP_BYTES) overs = 1;
-    if (overs && !(lay == 'c' && !typed && bufcount >= 0 && bufcount != nelems) &&
+    /* a request too large for a real buffer is only issued when the library
+     * is certain to reject it before touching the buffer (NC_EIOMISMATCH for
+     * a bufcount that matches neither view of the count product, or an
+     * error found by surely_rejected) */
+    if (overs && !(lay == 'c' && !typed && bufcount >= 0 && bufcount != nelems && bufcount != libraw) &&
         !surely_rejected(&a, &vi, nd)) {
         if (have_type) MPI_Type_free(&bt);
         lg_refused("toobig"); return;
@@ -999,7 +1005,7 @@ static void exec_op(int lineno, const char *op, toks_t *t)
             rc = ncmpi_open(MPI_COMM_WORLD, path, mode, g_info, &id);
         }
         info_clear();
-        if (id != UNSET) g_ncid[f] = id;
+        if (id >= 0) g_ncid[f] = id;    /* a failed call leaves the old (stale) id */
         lg_int(rc); lg_int(id); lg_end();
         return;
     }
